@@ -143,7 +143,59 @@ def main(ck):
             L.cells_of(p, cells)
             if row.get("live") or not row.get("once", True):
                 anomalies += 1
-    ck.cov["evaluations"] = len(uniq)
+    # ---- one shared source, two successive pipelines that return it from callbacks, and direct reads afterwards
+    t0 = time.time()
+    sc = L.share_cases(rng, ck.tier)
+    seen_s, scases = set(), []
+    for c in sc:
+        w = L.wire_share(c)
+        if w not in seen_s:
+            seen_s.add(w)
+            scases.append((c, w))
+    srows, serrs = L.run_programs(exe, [w for _, w in scases], "c02s")
+    sobs, slogs = L.coq_share([L.gallina_share(c) for c, _ in scases], "c02s")
+    s_valid, s_fulfilled_before = 0, 0
+    for (c, w), row, o in zip(scases, srows, sobs):
+        if row is None:
+            bad.append((w, "harness produced no result for this share case (%s)" % "; ".join(serrs)[:300]))
+            continue
+        if row.get("fail"):
+            key = "shared-source:%s" % (row.get("key") or "crash")
+            ck.hits.append(dict(what="%s on %s" % (row["fail"], w), key=key,
+                                replay=dict(harness="h_c02", program=w, key=key, observed=row)))
+            continue
+        if o is None or any(x is None for x in o):
+            bad.append((w, "model evaluation of the share case failed: %s" % (slogs[0][-600:] if slogs else "")))
+            continue
+        direct, evs = L.parse_row(row)
+        finals = [direct] + [(L.RES_KIND.get(row[k].split(":")[0], 9), int(row[k].split(":")[1])) for k in ("final1", "final2")]
+        why = None
+        for part, seg, fin, name in zip((c["src"], c["p1"], c["p2"]), o, finals, ("source", "1st pipeline", "2nd pipeline")):
+            d = L.decode_obs(seg)
+            ids = set(L.all_ids(part))
+            mine = [e for e in evs if e[0] in ids]
+            if not (d["compiles"] and d["typed"] and d["agree"]):
+                why = "%s: compiles/typed/seq-agree flags %s" % (name, seg[:3])
+            elif d["final"] != fin or d["events"] != mine:
+                why = "%s: model predicts %s %s, implementation showed %s %s" % (name, d["final"], d["events"], fin, mine)
+            if why:
+                break
+        if why:
+            bad.append((w, why))
+        else:
+            s_valid += 1
+            if c["src"]["src"][0] == "contract" and not c["src"]["src"][4]:
+                s_fulfilled_before += 1
+    ck.notes.append("share cases: %d distinct, %d validated, %.1fs" % (len(scases), s_valid, time.time() - t0))
+    ck.cov["shared_source_cases"] = dict(cases=len(scases), validated=s_valid, contract_fulfilled_before_the_users=s_fulfilled_before,
+                                         form="one SharedFuture (contract early/late, RunShared, AsyncSharedContract; 0-2 extra handles) "
+                                              "returned from callbacks of two successive pipelines, then both pipelines and the handle are "
+                                              "read (twice); model: obs_share = each pipeline with handle_of (core_run source) substituted")
+    ck.cov["payloads"] = ("value type Pay and error type Err leave -7777 in a moved-from object, a moved-from exception_ptr is "
+                          "reported as exc:-7777; used in every world of the table (all then-/run-cells)")
+    ck.cov["evaluations"] = len(uniq) + len(scases)
+    validated += s_valid
+    nontriv += s_valid
     ck.cov["traces_validated_against_impl"] = validated
     ck.cov["distinct_nontrivial"] = nontriv
     ck.cov["exhaustive"] = False
@@ -151,7 +203,8 @@ def main(ck):
                       "(steps, full source catalogue?, alphabet level; level 3 = every typed cell x every behaviour x every attach, "
                       "0 = ~20 steps per world) — exhaustive over those alphabets, not over all programs; plus seeded random programs "
                       "of 4-8 steps weighted towards Task-/SharedFuture-returning callbacks and recovery after unwrapping.  non-trivial = "
-                      "a top-level callback was skipped, or some callback saw / produced a failure, or a returned handle was unwrapped")
+                      "a top-level callback was skipped, or some callback saw / produced a failure, or a returned handle was unwrapped "
+                      "(every validated share case counts: two unwrappings of one shared state)")
     ck.cov["plan"] = [list(x) for x in plan]
     ck.cov["sampled"] = nrandom
     ck.cov["table"] = dict(then_cells=len(T.then_cells()), run_cells=len(T.run_cells()),
